@@ -151,7 +151,8 @@ func (r *NetconfResponse) Record(b []byte) {
 func (r *NetconfResponse) record1dot0() {
 	b := r.RawResult
 
-	b = bytes.TrimPrefix(b, []byte(xmlHeader))
+	// the message may well start with the newline that followed the previous message's delimiter
+	b = bytes.TrimPrefix(bytes.TrimSpace(b), []byte(xmlHeader))
 	// trim space before trimming suffix because we usually have a trailing newline!
 	b = bytes.TrimSuffix(bytes.TrimSpace(b), []byte(v1Dot0Delim))
 
